@@ -288,11 +288,13 @@ pub struct SectionOut {
     pub violations: Vec<(Violation, Json)>,
     pub log: Vec<String>,
     pub hashes: Vec<u64>,
+    /// pools built without a runtime although (zero) timeouts were configured
+    pub zero_timeout_pools_built: u64,
 }
 
 pub fn run_sections(seed: u64, n: u64) -> SectionOut {
     let rt = tokio::runtime::Builder::new_current_thread().enable_all().build().expect("rt");
-    let mut out = SectionOut { cases: 0, violations: Vec::new(), log: Vec::new(), hashes: Vec::new() };
+    let mut out = SectionOut { cases: 0, violations: Vec::new(), log: Vec::new(), hashes: Vec::new(), zero_timeout_pools_built: 0 };
     rt.block_on(async {
         let mut rng = Rng::derive(seed, 0xC18, 77);
         for i in 0..n {
@@ -326,11 +328,26 @@ pub fn run_sections(seed: u64, n: u64) -> SectionOut {
             c.user = Some("u".into());
             c.dbname = Some("d".into());
             c.manager = method.clone().map(|m| ManagerConfig { recycling_method: m });
-            let timeouts = deadpool_postgres::Timeouts {
-                wait: if with_timeouts { Some(Duration::from_secs(7)) } else { None },
-                create: if with_timeouts && rng.chance(1, 2) { Some(Duration::from_secs(8)) } else { None },
-                recycle: None,
+            // without a runtime the pool must not be built, so anything goes (zero, 1 ns, ...); with one the
+            // timeouts must not get in the way of the behavioural part below
+            let timeouts = if !with_timeouts {
+                deadpool_postgres::Timeouts { wait: None, create: None, recycle: None }
+            } else if with_runtime {
+                deadpool_postgres::Timeouts {
+                    wait: *rng.pick(&[Some(Duration::from_secs(7)), Some(Duration::from_secs(7)), Some(Duration::ZERO), None]),
+                    create: if rng.chance(1, 2) { Some(Duration::from_secs(8)) } else { None },
+                    recycle: if rng.chance(1, 3) { Some(Duration::from_secs(9)) } else { None },
+                }
+            } else {
+                let vals = [None, Some(Duration::ZERO), Some(Duration::from_nanos(1)), Some(Duration::from_secs(7))];
+                let mut t = deadpool_postgres::Timeouts { wait: *rng.pick(&vals), create: *rng.pick(&vals), recycle: *rng.pick(&vals) };
+                if t.wait.is_none() && t.create.is_none() && t.recycle.is_none() {
+                    t.wait = Some(Duration::from_secs(7));
+                }
+                t
             };
+            let any_timeout = timeouts.wait.is_some() || timeouts.create.is_some() || timeouts.recycle.is_some();
+            let any_nonzero = [timeouts.wait, timeouts.create, timeouts.recycle].iter().any(|t| t.map(|d| !d.is_zero()).unwrap_or(false));
             let mut pc = PoolConfig::new(max_size);
             pc.timeouts = timeouts;
             pc.queue_mode = if lifo { deadpool::managed::QueueMode::Lifo } else { deadpool::managed::QueueMode::Fifo };
@@ -350,7 +367,7 @@ pub fn run_sections(seed: u64, n: u64) -> SectionOut {
                     continue;
                 }
                 Ok(Err(e)) => {
-                    let timeouts_set = with_pool && (timeouts.wait.is_some() || timeouts.create.is_some());
+                    let timeouts_set = with_pool && any_timeout;
                     if !(timeouts_set && !with_runtime && matches!(e, deadpool_postgres::CreatePoolError::Build(_))) {
                         bad("create_pool_failed", format!("create_pool() failed with {:?}", e));
                     }
@@ -359,8 +376,18 @@ pub fn run_sections(seed: u64, n: u64) -> SectionOut {
                 }
                 Ok(Ok(p)) => p,
             };
-            if with_pool && !with_runtime && (timeouts.wait.is_some() || timeouts.create.is_some()) {
+            if with_pool && !with_runtime && any_nonzero {
                 bad("timeouts_without_runtime_accepted", "create_pool() accepted timeouts without a runtime".into());
+            } else if with_pool && !with_runtime && any_timeout {
+                // only zero timeouts: whether build() insists on a runtime for them is its business, but the
+                // complaint must not be put off until the pool is used
+                out.zero_timeout_pools_built += 1;
+                let r = tokio::time::timeout(Duration::from_secs(10), pool.get()).await;
+                if let Ok(Err(deadpool_postgres::PoolError::NoRuntimeSpecified)) = r {
+                    bad("no_runtime_reported_at_first_use", "create_pool() accepted the configuration without a runtime and the first get() then failed with NoRuntimeSpecified".into());
+                }
+                acc.abort();
+                continue;
             }
             let st = pool.status();
             let want_max = if with_pool { max_size } else { PoolConfig::default().max_size };
